@@ -437,15 +437,26 @@ func GenDisplacementFamily(t *rapid.T) *World {
 		// one leaf queue holds everything: nothing to reclaim from, only lower priorities to preempt
 		w.Queues = []Queue{{Name: "root", GPU: QRes{Quota: float64(total), Limit: -1, Weight: 1}, CPU: free, Mem: free},
 			{Name: "x", Parent: "root", GPU: QRes{Quota: pickF(t, "xQuota", 0, 1, float64(total)), Limit: -1, Weight: 1}, CPU: free, Mem: free}}
+		// variant "replacement": the previous pod of 'want' is still terminating on a GPU, its replacement is pending;
+		// an older workload of higher priority in the same queue is nominated onto the GPU being freed, so 'want' has
+		// to preempt like any other pending workload
+		replacement := total >= 2 && chance(t, 3, "replacementPod")
+		wantPods := []Pod{{Name: "want-p0", CPU: 100, MemMB: 64, GPUs: 1, State: Pending, CreatedMin: 10}}
 		for k := 0; k < total; k++ {
+			if replacement && k == total-1 {
+				wantPods = append(wantPods, Pod{Name: "want-old", CPU: 100, MemMB: 64, GPUs: 1, State: Terminating, Node: fmt.Sprintf("n%d", k/gpn), CreatedMin: 300})
+				w.Groups = append(w.Groups, Group{Name: "first", Queue: "x", PriorityClass: "inference", Preemptibility: "preemptible", MinMember: 1, CreatedMin: 200,
+					Pods: []Pod{{Name: "first-p0", CPU: 100, MemMB: 64, GPUs: 1, State: Pending, CreatedMin: 200}}})
+				w.Family2 = "replacement-pod"
+				continue
+			}
 			prio := "train"
 			if k > 0 && chance(t, 3, "higherRunner") {
 				prio = "build-preemptible"
 			}
 			addRunning(fmt.Sprintf("run%d", k), "x", prio, k/gpn)
 		}
-		w.Groups = append(w.Groups, Group{Name: "want", Queue: "x", PriorityClass: "build-preemptible", Preemptibility: "preemptible", MinMember: 1, CreatedMin: 10,
-			Pods: []Pod{{Name: "want-p0", CPU: 100, MemMB: 64, GPUs: 1, State: Pending, CreatedMin: 10}}})
+		w.Groups = append(w.Groups, Group{Name: "want", Queue: "x", PriorityClass: "build-preemptible", Preemptibility: "preemptible", MinMember: 1, CreatedMin: 10, Pods: wantPods})
 		// bystander queues: each is full with pods of the pending workload's own priority, sits exactly at its quota
 		// with no over-quota weight (nothing to reclaim, nothing to preempt) and has a pending workload identical to
 		// 'want'. They can obtain nothing and must not keep 'want' from preempting inside its own queue.
@@ -465,9 +476,16 @@ func GenDisplacementFamily(t *rapid.T) *World {
 		}
 	} else {
 		// queue a: deserved quota covers its running pods + the pending one; queue b: strictly above its quota even after losing one
-		aRun := between(t, 0, total-1, "aRunning")
-		bRun := total - aRun
-		aQuota := aRun + 1 + between(t, 0, 1, "aSlack")
+		// variant "replacement" (see the preempt family): one GPU is held by the terminating previous pod of 'want' and
+		// is nominated to an older, higher-priority workload of queue a
+		replacement := total >= 2 && chance(t, 3, "replacementPod")
+		own := 0
+		if replacement {
+			own = 1
+		}
+		aRun := between(t, 0, total-1-own, "aRunning")
+		bRun := total - own - aRun
+		aQuota := aRun + 1 + 2*own + between(t, 0, 1, "aSlack")
 		bQuota := between(t, 0, bRun-1, "bQuota")
 		w.Queues = []Queue{{Name: "root", GPU: QRes{Quota: float64(aQuota + bQuota + 1), Limit: -1, Weight: 1}, CPU: free, Mem: free},
 			{Name: "a", Parent: "root", GPU: QRes{Quota: float64(aQuota), Limit: -1, Weight: pickF(t, "aW", 0, 1, 2)}, CPU: free, Mem: free},
@@ -481,8 +499,14 @@ func GenDisplacementFamily(t *rapid.T) *World {
 			addRunning(fmt.Sprintf("brun%d", i), "b", pickS(t, "bPrio", "train", "build-preemptible"), k/gpn)
 			k++
 		}
-		w.Groups = append(w.Groups, Group{Name: "want", Queue: "a", PriorityClass: pickS(t, "wantPrio", "train", "build-preemptible"), Preemptibility: "preemptible", MinMember: 1, CreatedMin: 10,
-			Pods: []Pod{{Name: "want-p0", CPU: 100, MemMB: 64, GPUs: 1, State: Pending, CreatedMin: 10}}})
+		wantPods := []Pod{{Name: "want-p0", CPU: 100, MemMB: 64, GPUs: 1, State: Pending, CreatedMin: 10}}
+		if replacement {
+			wantPods = append(wantPods, Pod{Name: "want-old", CPU: 100, MemMB: 64, GPUs: 1, State: Terminating, Node: fmt.Sprintf("n%d", k/gpn), CreatedMin: 300})
+			w.Groups = append(w.Groups, Group{Name: "first", Queue: "a", PriorityClass: "inference", Preemptibility: "preemptible", MinMember: 1, CreatedMin: 200,
+				Pods: []Pod{{Name: "first-p0", CPU: 100, MemMB: 64, GPUs: 1, State: Pending, CreatedMin: 200}}})
+			w.Family2 = "replacement-pod"
+		}
+		w.Groups = append(w.Groups, Group{Name: "want", Queue: "a", PriorityClass: pickS(t, "wantPrio", "train", "build-preemptible"), Preemptibility: "preemptible", MinMember: 1, CreatedMin: 10, Pods: wantPods})
 	}
 	w.Cycles = []CycleScript{{}}
 	return w
@@ -492,6 +516,9 @@ func JudgeDisplacement(w *World) *Verdict {
 	h := Run(w, nil)
 	v := &Verdict{History: h, Findings: EngineFindings(h), Nontrivial: true}
 	v.Classes = append(v.Classes, "family:"+w.Family)
+	if w.Family2 != "" {
+		v.Classes = append(v.Classes, "family:"+w.Family+"+"+w.Family2)
+	}
 	if len(h.Cycles) == 0 || h.Cycles[0].Panic != "" || h.Cycles[0].Hung || h.Cycles[0].Starved {
 		return v
 	}
